@@ -619,6 +619,35 @@ def undo_complete(ctx, res):
                           loc, msg, path)
         if not hits:
             res.oblige(True, m, "", "")
+    # who may shrink the undo log: only the undo loop pops entries; a
+    # completed (nested) registration keeps its record so that the parent
+    # can merge it - clearing it "when done" leaves the parent with nothing
+    # to undo for that sub-tree
+    shrink = []
+    for m, fn_ in cls.methods.items():
+        if fn_ is None:
+            continue
+        for x in ast.walk(fn_):
+            if isinstance(x, ast.Call) and isinstance(x.func, ast.Attribute) \
+                    and x.func.attr in ("clear", "remove", "__delitem__") \
+                    and norm(x.func.value).endswith("._processed"):
+                shrink.append((m, x))
+            if isinstance(x, ast.Delete) and any(
+                    "._processed" in norm(t) for t in x.targets):
+                shrink.append((m, x))
+            if isinstance(x, ast.Assign) and m != "__init__" and any(
+                    norm(t).endswith("._processed") for t in x.targets):
+                shrink.append((m, x))
+    res.instance("_AddOrRemoveNotifier:undo-log-writers", mod.loc(cls.node),
+                 shrinking_sites=len(shrink))
+    res.oblige(not shrink, "_observe.py:_AddOrRemoveNotifier:undo-log-cleared",
+               mod.loc(shrink[0][1]) if shrink else mod.loc(cls.node),
+               f"`{norm(shrink[0][1])[:50] if shrink else ''}` in "
+               f"{shrink[0][0] if shrink else ''} drops entries of the undo "
+               f"log outside the undo loop: a nested registration that has "
+               f"completed hands an empty record to its parent, so a later "
+               f"failure of the same observe() call leaves its notifiers "
+               f"attached")
     # the undo itself
     from ..pyfacts import expand_locals as _xl
     call_i = repo.inlined(rel, "_AddOrRemoveNotifier.__call__")
